@@ -246,7 +246,10 @@ func (st *state) exec(op *plan.Op, shared *scripted) (res plan.Res) {
 	var s, p string
 	var src *scripted
 	switch op.Fn {
-	case "enc", "encchk":
+	case "enc", "encchk", "genhold":
+		if op.Fn == "genhold" {
+			p = op.Pass() // the second entropy travels in the passphrase field
+		}
 		if op.Buf > 0 {
 			if b, ok := st.bufs[op.Buf]; ok {
 				ent = b
@@ -329,6 +332,16 @@ func (st *state) exec(op *plan.Op, shared *scripted) (res plan.Res) {
 			res.Out, res.Err = outHex([]byte(out)), errInfo(err)
 			res.Err2 = errInfo(bip39.CheckMnemonic(out, bip39.Language(op.L)))
 			b := bip39.IsMnemonicValid(out, bip39.Language(op.L))
+			res.B, res.OutOK = &b, true
+		case "genhold":
+			// generate from the first entropy, HOLD the result, generate from the second,
+			// then validate the held mnemonic and report it as it reads now
+			held, err := bip39.NewMnemonicByEntropy(ent, bip39.Language(op.L))
+			second, _ := bip39.NewMnemonicByEntropy([]byte(p), bip39.Language(op.L))
+			res.Out, res.Err = outHex([]byte(held)), errInfo(err)
+			res.Out2 = outHex([]byte(second))
+			res.Err2 = errInfo(bip39.CheckMnemonic(held, bip39.Language(op.L)))
+			b := bip39.IsMnemonicValid(held, bip39.Language(op.L))
 			res.B, res.OutOK = &b, true
 		case "chk":
 			res.Err = errInfo(bip39.CheckMnemonic(s, bip39.Language(op.L)))
